@@ -312,6 +312,7 @@ func checkC14(c *Ctx) {
 	r.Floor("C14/404", "handlers calling GetMessage/SourceReader/MarkSeen/RemoveMessage", nMutCalls, 1)
 	r.Count("paths enumerated", sm.an.PathsSeen)
 
+	c.c14Identity(sm, units)
 	c.c14Name(handlers, mgr, mbfa)
 	c.c14Routes()
 	c.c14Fields(handlers)
